@@ -3,7 +3,7 @@
 model-checking / simulation / replay front-end from one table, so that they cannot drift apart."""
 import os
 HERE = os.path.dirname(os.path.abspath(__file__))
-ALL = "C01 C03 C04 C05 C06 C08 C11 C12 C13 C14 C15 StoreAgrees"
+ALL = "C01 C02 C03 C04 C05 C06 C08 C11 C12 C13 C14 C15 StoreAgrees"
 BASE = dict(
     NVB="2", InitLog="<- HistA", MaxSeq="3", Keys='{"user"}', Kinds='{"mut", "sys", "adv"}', OldEvents="FALSE",
     BadEvents="FALSE", FoUuid="<- Fo10", Savers='{"p"}', MaxSaves="2", MaxCrash="1", MaxAcks="2", MaxGen="2",
@@ -52,6 +52,8 @@ CFGS = {
     "ReplayLifeGaps": rep(LIFE, MaxSeq="3", MaxSaves="5", MaxAcks="5", MaxNotify="5", MaxEnds="6", Gaps=GAPS),
     # ---- start-up faults ------------------------------------------------------------------------------------
     "MCFaultQ": mc(FAULT),
+    "MCModeQ": mc(FAULT, MaxFail="0", Finite="TRUE", AutoReset='"latest"', MaxEnds="2", EndCauses='{"ok"}', AllowClose="TRUE"),
+    "SimMode": simc(FAULT, 44, MaxFail="0", Finite="TRUE", AutoReset='"latest"', MaxEnds="2", EndCauses='{"ok"}', AllowClose="TRUE", MaxSaves="2"),
     "MCFaultLatestQ": mc(FAULT, AutoReset='"latest"'),
     "SimFault": simc(FAULT, 48, MaxFail="3"),
     "SimFaultLatest": simc(FAULT, 48, MaxFail="3", AutoReset='"latest"'),
